@@ -253,13 +253,14 @@ func (d *OrderedDaemon) DebugLogger(logger log.Logger) {
 
 // Start starts the daemon.
 func (d *OrderedDaemon) Start() {
-	// do not allow restarts
+	d.lock.Lock()
+	defer d.lock.Unlock()
+
+	// do not allow restarts (checked under the lock: a shutdown that found the daemon not running has nothing to stop,
+	// so it must not be followed by a start)
 	if d.IsStopped() {
 		return
 	}
-
-	d.lock.Lock()
-	defer d.lock.Unlock()
 
 	if !d.IsRunning() {
 		d.running.Store(true)
@@ -312,9 +313,15 @@ func (d *OrderedDaemon) shutdown() {
 		d.logger.LogDebugf("Shutting down ...")
 	}
 
+	// the daemon is marked as stopped under the lock: Start either happens before (and its workers get stopped below) or
+	// finds the daemon stopped
+	d.lock.Lock()
 	d.stopped.Store(true)
+	running := d.IsRunning()
+	d.lock.Unlock()
+
 	d.stoppedCtxCancel()
-	if !d.IsRunning() {
+	if !running {
 		return
 	}
 
